@@ -1101,6 +1101,20 @@ class VM:
         return False
 
     @staticmethod
+    def _describe(value: JSValue) -> str:
+        """A value as error messages name it (never the host's repr, which carries
+        memory addresses and internal structure)."""
+        if isinstance(value, JSFunction):
+            return f"{value}"
+        if isinstance(value, JSArray):
+            return "[object Array]"
+        if isinstance(value, JSObject):
+            return "[object Object]"
+        if callable(value):
+            return "function"
+        return to_string(value)
+
+    @staticmethod
     def _array_index(key_str: str) -> int:
         """The element index a property name denotes, -1 if it is not one: only the
         canonical decimal text of a non-negative integer ("1", not "01", " 1", "+1")."""
@@ -2556,7 +2570,7 @@ class VM:
             result = callee(*args)
             self.stack.append(result if result is not None else UNDEFINED)
         else:
-            raise JSTypeError(f"{callee} is not a function")
+            raise JSTypeError(f"{self._describe(callee)} is not a function")
 
     def _adopt_regexes(self, values) -> None:
         """Poll regexes against the clock of the evaluation that uses them.
@@ -2595,7 +2609,7 @@ class VM:
             result = method(*args)
             self.stack.append(result if result is not None else UNDEFINED)
         else:
-            raise JSTypeError(f"{method} is not a function")
+            raise JSTypeError(f"{self._describe(method)} is not a function")
 
     def _call_callback(
         self, callback: JSValue, args: List[JSValue], this_val: JSValue = None
@@ -2700,7 +2714,7 @@ class VM:
                 result = callback(*args)
             return result if result is not None else UNDEFINED
         else:
-            raise JSTypeError(f"{callback} is not a function")
+            raise JSTypeError(f"{self._describe(callback)} is not a function")
 
     def _invoke_js_function(
         self,
@@ -2805,7 +2819,7 @@ class VM:
             result = constructor._call_fn(*args)
             self.stack.append(result)
         else:
-            raise JSTypeError(f"{constructor} is not a constructor")
+            raise JSTypeError(f"{self._describe(constructor)} is not a constructor")
 
     def _discard_frame_state(self, frame: CallFrame) -> None:
         """Drop what a returning frame left behind.
